@@ -2,7 +2,7 @@
 import z3, time, subprocess, tempfile, os, re
 
 Z3_TIMEOUT_MS = int(os.environ.get('PYVC_Z3_TIMEOUT_MS', '10000'))
-CVC5_TIMEOUT_S = int(os.environ.get('PYVC_CVC5_TIMEOUT_S', '20'))
+CVC5_TIMEOUT_S = int(os.environ.get('PYVC_CVC5_TIMEOUT_S', '10'))
 
 def _smt2(solver):
     txt = solver.to_smt2()
@@ -67,7 +67,7 @@ def discharge(ob, axioms=(), both=False, want_model=True):
     ob.ms = int((time.time() - t0) * 1000)
     if r2 == 'unsat': ob.verdict = 'discharged'; ob.by = 'cvc5-1.0'; return ob
     for seed in (7,):
-        r3 = run_z3new(txt, 10, seed)
+        r3 = run_z3new(txt, 5, seed)
         if r3 == 'unsat':
             ob.verdict = 'discharged'; ob.by = 'z3-new(seed %d)' % seed; ob.ms = int((time.time() - t0) * 1000); return ob
         if r3 == 'sat' or r2 == 'sat':
